@@ -285,12 +285,12 @@ fn mem_run(c: &MemCase) -> (Option<String>, usize, bool) {
 	let p2 = q(n / 4, n / 2);
 	let p3 = q(n / 2, 3 * n / 4);
 	let overall = samples.iter().map(|s| s.1).max().unwrap_or(0);
-	let ceiling = (2usize << 20) + 24 * largest;
+	let ceiling = (8usize << 20) + 24 * largest;
 	let mut verdict = None;
 	if p3 > p2 + largest as isize {
 		verdict = Some(format!("live heap grows along the stream: peak {p3} bytes over documents [N/2,3N/4) vs {p2} over [N/4,N/2) (largest document {largest} bytes)"));
 	} else if overall as usize > ceiling {
-		verdict = Some(format!("live heap peaks at {overall} bytes, above the ceiling {ceiling} (= 2 MiB + 24 x largest document of {largest} bytes) for a stream of {} bytes", n * largest));
+		verdict = Some(format!("live heap peaks at {overall} bytes, above the ceiling {ceiling} (= 8 MiB + 24 x largest document of {largest} bytes) for a stream of {} bytes", n * largest));
 	}
 	// recurrence: the abstract states (live bytes, live blocks) of the third quarter already occurred in the second
 	let second: HashSet<(isize, isize)> = samples.iter().filter(|s| s.0 >= n / 4 && s.0 < n / 2).map(|s| (s.1, s.2)).collect();
@@ -391,7 +391,7 @@ pub fn run(ctx: &Ctx) -> CheckOutput {
 	CheckOutput {
 		level: "model_checking",
 		tally,
-		rule: format!("lag: streams of 4-12 documents (8 B, 100 B, 5 KiB, 20 KiB, mixed) in JSON / MessagePack / YAML, source named and detected, every streaming target, 8 packetisations (1, 2, 3 documents per read; all-but-3-bytes; half documents; 7-byte, 100-byte and single-byte packets) and, for the small streams, every read schedule with <= {} deviation(s); a monitor runs at EVERY read() call: with j documents fully delivered, the complete translations of documents 1..j-2 must already have been handed to the writer. memory: streams generated on demand (period-P cycles of documents up to 20 KiB, YAML also with %YAML/%TAG directives and '...' on every document; N = {} documents), packets of all/7/100/5000 bytes, named and detected; a counting allocator samples the live heap at every read(): the peak over documents [N/2,3N/4) must not exceed the peak over [N/4,N/2) by more than one largest document, and the overall peak must stay under 2 MiB + 24 x largest document (a stream-sized footprint breaks this); the set of (live bytes, live blocks) states of the third quarter is compared with the second quarter's (closed = lasso, reported).", if thorough { 2 } else { 1 }, n),
+		rule: format!("lag: streams of 4-12 documents (8 B, 100 B, 5 KiB, 20 KiB, mixed) in JSON / MessagePack / YAML, source named and detected, every streaming target, 8 packetisations (1, 2, 3 documents per read; all-but-3-bytes; half documents; 7-byte, 100-byte and single-byte packets) and, for the small streams, every read schedule with <= {} deviation(s); a monitor runs at EVERY read() call: with j documents fully delivered, the complete translations of documents 1..j-2 must already have been handed to the writer. memory: streams generated on demand (period-P cycles of documents up to 20 KiB, YAML also with %YAML/%TAG directives and '...' on every document; N = {} documents), packets of all/7/100/5000 bytes, named and detected; a counting allocator samples the live heap at every read(): the peak over documents [N/2,3N/4) must not exceed the peak over [N/4,N/2) by more than one largest document, and the overall peak must stay under 8 MiB + 24 x largest document (a stream-sized footprint breaks this); the set of (live bytes, live blocks) states of the third quarter is compared with the second quarter's (closed = lasso, reported).", if thorough { 2 } else { 1 }, n),
 		exhaustive: true,
 		bounds: json!({"deviations": if thorough { 2 } else { 1 }, "stream_documents": n}),
 		assumptions: vec![
